@@ -212,6 +212,10 @@ Record ctx_facts (c : ctx_table) : Prop := {
   f_md_regs : plain_var (ct_md_regs_val c) v_mga = true;
   f_md_size : plain_var (ct_md_size c) v_size = true;
   f_get_val : plain_var (ct_get_val c) v_ga = true /\ plain_var (ct_md_get_val c) v_mga = true;
+  f_md_fmt : match ct_md_fmt c with
+             | None => True
+             | Some (p, z, d) => p = ct_fmt_prefix c /\ z = ct_fmt_zero c /\ d = register_size c * ct_fmt_mul c
+             end;
   f_layout : forall n, In n (accepted c) -> ok_layout c n = true;
   f_disjoint : forall n, In n (accepted c) -> ok_disjoint c n = true
 }.
@@ -247,6 +251,7 @@ Proof.
   apply app_eq_nil in H. destruct H as [G5 H].
   apply app_eq_nil in H. destruct H as [G6 H].
   apply app_eq_nil in H. destruct H as [G9 H].
+  apply app_eq_nil in H. destruct H as [G10 H].
   apply app_eq_nil in H. destruct H as [G7 G8].
   constructor.
   - exact (diag_nil _ _ _ _ H1).
@@ -284,6 +289,10 @@ Proof.
   - exact (diag_nil _ _ _ _ G5 _ (or_introl eq_refl)).
   - exact (diag_nil _ _ _ _ G6 _ (or_introl eq_refl)).
   - pose proof (diag_nil _ _ _ _ G9 _ (or_introl eq_refl)) as X. cbv beta in X. apply andb_true_iff in X. exact X.
+  - pose proof (diag_nil _ _ _ _ G10 _ (or_introl eq_refl)) as X. cbv beta in X.
+    destruct (ct_md_fmt c) as [[[p z] d]|]; [|exact I].
+    apply andb_true_iff in X. destruct X as [X X3]. apply andb_true_iff in X. destruct X as [X1 X2].
+    apply name_eqb_eq in X1. apply Bool.eqb_prop in X2. apply Z.eqb_eq in X3. repeat split; assumption.
   - exact (diag_nil _ _ _ _ G7).
   - exact (diag_nil _ _ _ _ G8).
 Qed.
@@ -604,6 +613,12 @@ Proof.
   intros rf n. unfold md_named, named. rewrite md_get_always_eq. destruct (get_always c rf n) as [x| |t|]; try reflexivity.
   cbn [obind]. rewrite (plain_var_eval _ _ (f_md_regs c F) rf _ x); [reflexivity|].
   cbn [lookup_var]. rewrite name_eqb_refl. reflexivity.
+Qed.
+Lemma md_format_register_eq : forall rf n, md_format_register c rf n = format_register c rf n.
+Proof.
+  intros rf n. unfold md_format_register. pose proof (f_md_fmt c F) as X.
+  destruct (ct_md_fmt c) as [[[p z] d]|]; [|reflexivity]. destruct X as [X1 [X2 X3]]. subst.
+  unfold format_register, format_value. reflexivity.
 Qed.
 Lemma md_register_size_eq : md_register_size c = Ret (register_size c).
 Proof.
